@@ -257,7 +257,7 @@ Preprocess ==
     /\ hist' = Log([a |-> "pre", ub |-> ub', actv |-> actv'])
     /\ UNCHANGED <<net, ses, opt, obs, lb, mrate, queue, pilot, lvl, ridx, stopAt, served, verdict>>
 
-TruncA(x) == (x \div U) * U        \* whole amperes (storing a float into an integer numpy array)
+TruncA(x) == (x \div U) * U        \* whole amperes (what storing a float into an integer numpy array does; see MinRate)
 
 (* apply_minimum_charging_rate, one session: it gets the EVSE's minimum pilot as lower bound if   *)
 (* it still needs that much and the minimum pilots granted so far plus this one are feasible;      *)
@@ -267,13 +267,12 @@ MinRate ==
     /\ LET s  == Head(mq)
            r  == [mrate EXCEPT ![s] = MinP(s)]
            ok == MinP(s) <= Rem(s) /\ Feasible(r)
-           \* session.min_rates is the integer array the Interface builds from the scalar 0, so the
-           \* assignment min_rates[0] = max(minimum pilot, min_rates[0]) TRUNCATES a fractional minimum
-           \* pilot (7.5 A -> 7): a named deviation of the code from its documentation, modelled as it
-           \* is.  (The feasibility test above uses the untruncated minimum pilot.)  Harmless for the
-           \* pilots emitted - levels are chosen from [lb, ub] - but it does change what "the other
-           \* sessions at their lower bound" means while higher-priority sessions are served.
-           nl == TruncA(Max2(MinP(s), lb[s]))
+           \* (Until fix d6a4472 in /repo the Interface built session.min_rates as an INTEGER array, so this
+           \* assignment truncated a fractional minimum pilot, 7.5 A -> 7: the other sessions were then raised
+           \* against a lower bound that is no level, the 7.5 A station fell to 0, and with phasor sums the
+           \* schedule could become infeasible - found by TLC as a violation of OutputFeasible on the
+           \* infrastructure frac3p with the truncation modelled, and by the closed loop on the real code.)
+           nl == Max2(MinP(s), lb[s])
        IN /\ IF ok
              THEN /\ lb' = [lb EXCEPT ![s] = nl]
                   /\ ub' = [ub EXCEPT ![s] = Max2(ub[s], nl)]   \* reconcile_max_and_min
@@ -458,11 +457,7 @@ Spec == Init /\ [][Next]_vars
 Settled  == pc \in {"serve", "done", "emitted"}
 Sorted   == opt.algo # "unc"
 OutputFeasible       == (Settled /\ Sorted) => Feasible(pilot)
-\* (while the greedy loop is still running, a session that has not been served yet sits at its
-\* lower bound, which - being stored truncated, see MinRate - need not be a level; every session
-\* that HAS been served, every round-robin state and every final schedule is on allowed levels)
-Unserved == IF pc = "serve" /\ opt.algo = "greedy" THEN {queue[k] : k \in 1..Len(queue)} ELSE {}
-LevelsAllowed        == Settled => PLevels([s \in St |-> IF s \in Unserved THEN 0 ELSE pilot[s]])
+LevelsAllowed        == Settled => PLevels(pilot)      \* in every intermediate state too: a lower bound is a level
 WithinDemand         == (Settled /\ Sorted) => PDemand(pilot)
 WithinEstimatorOrMin == (Settled /\ Sorted) => PEstimator(pilot)
 ZeroForInactive      == Settled => PInactive(pilot)
